@@ -216,13 +216,19 @@ func (x *Exec) CheckPageTypes(st *boltfmt.State, what string) *Fail {
 		return &Fail{Kind: "mismatch", At: -1, Msg: what + ": Begin(false): " + err.Error()}
 	}
 	defer func() { _ = tx.Rollback() }()
+	flCont := map[int]bool{} // continuation pages of a multi-page freelist: no header of their own either
+	for i, id := range st.FLPages {
+		if i > 0 {
+			flCont[int(id)] = true
+		}
+	}
 	for id, u := range st.Use {
 		pi, err := tx.Page(id)
 		if err != nil || pi == nil {
 			return &Fail{Kind: "mismatch", At: -1, Msg: fmt.Sprintf("%s [pagetype]: Tx.Page(%d) = %v, %v", what, id, pi, err)}
 		}
 		want := u
-		if u == boltfmt.UseOverflow {
+		if u == boltfmt.UseOverflow || flCont[id] {
 			continue // interior of a multi-page allocation: type field is arbitrary data
 		}
 		if pi.Type != want {
